@@ -8,6 +8,8 @@
      emit     m                           the subscriber hands message m to the router
      hstart   m                           the handler chain is entered
      hself    m kind                      the handler settles m itself (logged before it does)
+     hlate    m kind res                  a goroutine of the handler settled m while the router's own settlement was in
+                                          progress; res = what Ack()/Nack() returned (the settlement made first stays)
      hend     m end outs                  the chain returns / panics
      pcall    m outs sample intact        Publish entered; sample = settlement of m seen inside
      pret     m outcome sample            Publish about to return / panic
@@ -40,6 +42,8 @@ TEmit   == Is("emit")   /\ Emit(Ev.m)   /\ Keep /\ Adv
 THStart == Is("hstart") /\ HStart(Ev.m) /\ Keep /\ Adv
 THSelf  == Is("hself")  /\ HSelf(Ev.m, Ev.kind) /\ Keep /\ Adv
 THEnd   == Is("hend")   /\ HEnd(Ev.m, [end |-> Ev.end, outs |-> Ev.outs]) /\ Keep /\ Adv
+THLate  == /\ Is("hlate") /\ settle[Ev.m] # "none" /\ Ev.res = (settle[Ev.m] = Ev.kind)
+           /\ UNCHANGED rvars /\ Adv
 TPCall  == Is("pcall")  /\ Ev.intact /\ PCall(Ev.m, Ev.outs, Ev.sample) /\ Keep /\ Adv
 TPRet   == Is("pret")   /\ PRet(Ev.m, Ev.outcome, Ev.sample) /\ Keep /\ Adv
 TSettled == /\ Is("settled") /\ settle[Ev.m] = Ev.kind
@@ -50,6 +54,6 @@ TQuiesce == /\ Is("quiesce")
             /\ UNCHANGED rvars /\ Adv
 TSilent == (\E m \in Msgs : Settle(m)) /\ Keep /\ UNCHANGED l
 
-TNext == TReset \/ TEmit \/ THStart \/ THSelf \/ THEnd \/ TPCall \/ TPRet \/ TSettled \/ TQuiesce \/ TSilent
+TNext == TReset \/ TEmit \/ THStart \/ THSelf \/ THLate \/ THEnd \/ TPCall \/ TPRet \/ TSettled \/ TQuiesce \/ TSilent
 TSpec == TInit /\ [][TNext]_tvars
 =============================================================================
